@@ -553,6 +553,11 @@ func (x *Exec) havocHeap(st *State, why string, ms *ModSet) {
 		if x.vc.uni.finalGlobalComp(k) {
 			continue
 		}
+		if strings.HasPrefix(k, "Lock.") && (ms == nil || ms.all || !prefixMatches(k, ms.prefixes)) {
+			// the ghost lock state changes only through Lock/Unlock themselves: callees under contract
+			// are lock-balanced (obligation lock.balanced), callees without one are assumed to be
+			continue
+		}
 		st.H[k] = x.vc.fresh("H."+k+"@havoc", st.H[k].S)
 	}
 	a := x.alloc(st)
@@ -1033,12 +1038,86 @@ func init() {
 		return Value{K: KScalar, X: x.bytesHasPrefix(st, args[0], args[1])}
 	}
 	stubEffectTable["bytes.HasPrefix"] = newModSet
+	// bytes.TrimRight(s, cutset) with a cutset of known small length: the result is the prefix s[:n]
+	// where every byte from n on is in the cutset and byte n-1 (if any) is not.
+	stubs["bytes.TrimRight"] = func(x *Exec, fr *Frame, st *State, callee *ssa.Function, args []Value, pos token.Pos) Value {
+		m := x.m()
+		ixT := IntTy{64, true}
+		s, cut := args[0], args[1]
+		cn, ok := litValue(cut.Len)
+		if s.K != KSlice || cut.K != KString || !ok || !cn.IsInt64() || cn.Int64() < 1 || cn.Int64() > 4 {
+			unsupported("bytes.TrimRight with a cutset of unknown length")
+		}
+		inCut := func(b *Term) *Term {
+			c := TFalse
+			for k := int64(0); k < cn.Int64(); k++ {
+				c = Or(c, Eq(b, Select(cut.X, m.ix(k))))
+			}
+			return c
+		}
+		n := x.vc.fresh("trimright.n", m.ixSort())
+		k := Sym("k!t", m.ixSort())
+		x.vc.assume(Implies(st.Reach, And(m.cmp(token.LEQ, m.ix(0), n, ixT), m.cmp(token.LEQ, n, s.Len, ixT))))
+		x.vc.assume(Implies(st.Reach, Forall([][2]string{{"k!t", m.ixSort()}},
+			Implies(And(m.cmp(token.LEQ, n, k, ixT), m.cmp(token.LSS, k, s.Len, ixT)), inCut(x.srcElemLeaves(st, s, k)[0])))))
+		x.vc.assume(Implies(And(st.Reach, m.cmp(token.GTR, n, m.ix(0), ixT)), Not(inCut(x.srcElemLeaves(st, s, x.ixSub(n, m.ix(1)))[0]))))
+		// (an empty result of bytes.TrimRight is nil in the library; callers here only convert or measure it)
+		return Value{T: s.T, K: KSlice, Loc: s.Loc, Off: s.Off, Len: n, Cap: s.Cap}
+	}
+	stubEffectTable["bytes.TrimRight"] = newModSet
+	// bytes.IndexByte(s, c): the first index holding c, or -1 when there is none.
+	stubs["bytes.IndexByte"] = func(x *Exec, fr *Frame, st *State, callee *ssa.Function, args []Value, pos token.Pos) Value {
+		m := x.m()
+		ixT := IntTy{64, true}
+		s, c := args[0], args[1]
+		if s.K != KSlice || c.K != KScalar {
+			unsupported("bytes.IndexByte of a non-slice")
+		}
+		r := x.vc.fresh("indexbyte.r", m.ixSort())
+		k := Sym("k!i", m.ixSort())
+		none := Forall([][2]string{{"k!i", m.ixSort()}}, Implies(And(m.cmp(token.LEQ, m.ix(0), k, ixT), m.cmp(token.LSS, k, s.Len, ixT)), Not(Eq(x.srcElemLeaves(st, s, k)[0], c.X))))
+		first := And(m.cmp(token.LEQ, m.ix(0), r, ixT), m.cmp(token.LSS, r, s.Len, ixT), Eq(x.srcElemLeaves(st, s, r)[0], c.X),
+			Forall([][2]string{{"k!i", m.ixSort()}}, Implies(And(m.cmp(token.LEQ, m.ix(0), k, ixT), m.cmp(token.LSS, k, r, ixT)), Not(Eq(x.srcElemLeaves(st, s, k)[0], c.X)))))
+		x.vc.assume(Implies(st.Reach, Or(And(Eq(r, m.ix(-1)), none), first)))
+		return Value{T: types.Typ[types.Int], K: KScalar, X: r}
+	}
+	stubEffectTable["bytes.IndexByte"] = newModSet
 	noop := func(x *Exec, fr *Frame, st *State, callee *ssa.Function, args []Value, pos token.Pos) Value {
 		return Value{K: KTuple}
 	}
-	for _, n := range []string{"(*sync.Mutex).Lock", "(*sync.Mutex).Unlock", "(*sync.RWMutex).Lock", "(*sync.RWMutex).Unlock", "(*sync.RWMutex).RLock", "(*sync.RWMutex).RUnlock"} {
-		stubs[n] = noop
+	_ = noop
+	// Mutexes: a ghost lock state per mutex (0 = not held by this call chain, 1 = read-held, 2 =
+	// write-held), kept in heap components "Lock.<static location>" indexed by the owning object; the
+	// contract builtins wheld(m) / rheld(m) / unheld(m) read it. Only the sequential discipline of one
+	// call chain is modelled (which lock is held where), not other goroutines.
+	lockEff := func() ModSet { ms := newModSet(); ms.prefixes["Lock"] = true; return ms }
+	for n, v := range map[string]int64{"(*sync.Mutex).Lock": 2, "(*sync.Mutex).Unlock": 0, "(*sync.RWMutex).Lock": 2, "(*sync.RWMutex).Unlock": 0, "(*sync.RWMutex).RLock": 1, "(*sync.RWMutex).RUnlock": 0} {
+		val := v
+		stubs[n] = func(x *Exec, fr *Frame, st *State, callee *ssa.Function, args []Value, pos token.Pos) Value {
+			if len(args) == 1 && args[0].K == KPtr && args[0].Loc != nil && len(args[0].Loc.Elems) == 0 {
+				name := "Lock." + args[0].Loc.Prefix
+				c := x.comp(st, name, SArr(SInt, SInt))
+				st.H[name] = Store(c, args[0].Loc.Root, IntLit(val))
+			} else {
+				// a mutex that is not a plain field of an object: every lock state becomes unknown
+				for _, k := range sortedKeys(st.H) {
+					if strings.HasPrefix(k, "Lock.") {
+						st.H[k] = x.vc.fresh("H."+k+"@lock", st.H[k].S)
+					}
+				}
+			}
+			return Value{K: KTuple}
+		}
+		stubEffectTable[n] = lockEff
 	}
+}
+
+// lockState reads the ghost lock state of the mutex at location l.
+func (x *Exec) lockState(st *State, l *Loc) *Term {
+	if l == nil || len(l.Elems) != 0 {
+		unsupported("lock state of a mutex that is not a plain field")
+	}
+	return Select(x.comp(st, "Lock."+l.Prefix, SArr(SInt, SInt)), l.Root)
 }
 
 func (x *Exec) byteAt(st *State, s Value, k int64) *Term {
